@@ -74,16 +74,21 @@ impl Encoder for TTYEncoder {
             DecModeGet(mode) => {
                 write!(out, "\x1b[?{}$p", mode as usize)?;
             }
-            CursorTo(pos) => write!(out, "\x1b[{};{}H", pos.row + 1, pos.col + 1)?,
+            CursorTo(pos) => write!(
+                out,
+                "\x1b[{};{}H",
+                pos.row.saturating_add(1),
+                pos.col.saturating_add(1)
+            )?,
             CursorMove { row, col } => {
                 match col.cmp(&0) {
                     Ordering::Greater => write!(out, "\x1b[{}C", col)?,
-                    Ordering::Less => write!(out, "\x1b[{}D", -col)?,
+                    Ordering::Less => write!(out, "\x1b[{}D", col.unsigned_abs())?,
                     _ => {}
                 }
                 match row.cmp(&0) {
                     Ordering::Greater => write!(out, "\x1b[{}B", row)?,
-                    Ordering::Less => write!(out, "\x1b[{}A", -row)?,
+                    Ordering::Less => write!(out, "\x1b[{}A", row.unsigned_abs())?,
                     _ => {}
                 }
             }
@@ -202,13 +207,18 @@ impl Encoder for TTYEncoder {
             Reset => out.write_all(b"\x1bc")?,
             Char(c) => write!(out, "{}", c)?,
             Scroll(count) => match count.cmp(&0) {
-                Ordering::Less => write!(out, "\x1b[{}T", -count)?,
+                Ordering::Less => write!(out, "\x1b[{}T", count.unsigned_abs())?,
                 Ordering::Greater => write!(out, "\x1b[{}S", count)?,
                 _ => (),
             },
             ScrollRegion { start, end } => {
                 if end > start {
-                    write!(out, "\x1b[{};{}r", start + 1, end + 1)?;
+                    write!(
+                        out,
+                        "\x1b[{};{}r",
+                        start.saturating_add(1),
+                        end.saturating_add(1)
+                    )?;
                 } else {
                     write!(out, "\x1b[r")?;
                 }
